@@ -155,13 +155,18 @@ func derivedBody(s *simrt.Sim) {
 // counter
 
 func counterBody(s *simrt.Sim) {
-	customCond := s.Choose(2) == 1
+	customCond := s.Choose(3)
 	cond := func(v int) bool { return v != 0 }
 	var c rx.Counter[int]
-	if customCond {
+	switch customCond {
+	case 1:
 		cond = func(v int) bool { return v >= 5 }
 		c = rx.NewCounter[int](cond)
-	} else {
+	case 2:
+		// a condition that the zero value satisfies
+		cond = func(v int) bool { return v < 5 }
+		c = rx.NewCounter[int](cond)
+	default:
 		c = rx.NewCounter[int]()
 	}
 	nin := 1 + s.Choose(3)
